@@ -64,23 +64,27 @@ theorem C02_queue {c0 c' : Cell} {p : Nat} {ap : App} {queue : List (Nat × Bool
     ∃ a' sid', c'.app? p = some a' ∧ a'.server = some sid' :=
   findPlacements_probe h0 hagg hcur hh hnd hp hlbl h hquiet
 
-/-- **C02 (whole cycle, the probe's partition scheduled first).**  In a state satisfying the
-    invariants (every reachable state: `C02_aggregates`), a new pending instance for which some up
-    server of its partition has the required traits and lifetime, room in every dimension and affinity
-    head-room at every level is placed by the next `Cell.schedule`, provided the instances ahead of it in
-    its partition's queue are quiescent in that cycle and belong to allocations of its partition.
-    *Partial* with respect to the property's statement in two ways, each decided by the
-    correspondence run and the probe/oracle monitor instead: instances with an identity group;
-    partitions scheduled before the probe's. -/
-theorem C02_cycle_partial (c c' : Cell) (q : List (Nat × Bool)) (qb : List (List (Nat × Bool))) (ch : List Nat)
-    (p : Nat) (ap : App)
+/-- **C02 (whole cycle).**  In a state satisfying the invariants (every reachable state:
+    `C02_aggregates`), a new pending instance for which some up server of its partition has the required
+    traits and lifetime, room in every dimension and affinity head-room at every level is placed by the
+    next `Cell.schedule`, provided the cell is quiescent for the instances scheduled before it in that
+    cycle: no instance of a partition scheduled earlier (`qa`) and no instance ahead of it in its own
+    partition's queue ends the cycle on a server it was not on after the pre-passes.  The queues of
+    different partitions are disjoint and the instances ahead in the probe's queue belong to
+    allocations of its partition (which is how the queues are built).
+    *Partial* with respect to the property's statement in one way, decided by the correspondence run
+    and the probe/oracle monitor instead: instances with an identity group. -/
+theorem C02_cycle_partial (c c' : Cell) (qa : List (List (Nat × Bool))) (q : List (Nat × Bool))
+    (qb : List (List (Nat × Bool))) (ch : List Nat) (p : Nat) (ap : App)
     (h0 : AffAll c) (hagg : AggOk c) (hcur : CurOk c.tree) (hh : ProbeHyp c p ap)
     (hnd : (q.map (·.1)).Nodup) (hp : (p, false) ∈ q)
-    (hdisj : ∀ q' ∈ qb, ∀ y ∈ q.map (·.1), y ∉ q'.map (·.1))
+    (hdisj : ∀ q' ∈ qa ++ qb, ∀ y ∈ q.map (·.1), y ∉ q'.map (·.1))
+    (hdisj2 : ∀ q1 ∈ qa, ∀ q2 ∈ qb, ∀ y ∈ q1.map (·.1), y ∉ q2.map (·.1))
     (hlbl : ∀ y, AheadOf p (q.map (·.1)) y → ∀ ay, c.app? y = some ay →
       (c.allocInfo ay.alloc).label = (c.allocInfo ap.alloc).label)
-    (h : schedule c (q :: qb) ch = .ok c')
-    (hquiet : ∀ cpre, prePasses c = .ok cpre → ∀ y, AheadOf p (q.map (·.1)) y → ¬ MovedTo cpre c' y) :
+    (h : schedule c (qa ++ q :: qb) ch = .ok c')
+    (hquiet : ∀ cpre, prePasses c = .ok cpre → ∀ y,
+      ((∃ q1 ∈ qa, y ∈ q1.map (·.1)) ∨ AheadOf p (q.map (·.1)) y) → ¬ MovedTo cpre c' y) :
     ∃ a' sid', c'.app? p = some a' ∧ a'.server = some sid' := by
   simp only [schedule, bind_ok] at h
   obtain ⟨c1, hpre, ⟨c2, rest⟩, hf, h⟩ := h
@@ -89,16 +93,19 @@ theorem C02_cycle_partial (c c' : Cell) (q : List (Nat × Bool)) (qb : List (Lis
     · simp only [throw_bind, throw_ne_ok] at h
     · simp only [pure_ok] at h; exact h
   subst hc2
-  simp only [List.foldlM, bind_ok] at hf
-  obtain ⟨⟨cq, chq⟩, hfq, hfb⟩ := hf
+  simp only [List.foldlM_append, bind_ok] at hf
+  obtain ⟨⟨ck, chk⟩, hfa, hfrest⟩ := hf
+  have hcya : Cycle qa c1 ck := partitions_cycle qa (c1, ch) (ck, chk) hfa
+  have hcyrest : Cycle (q :: qb) ck c2 := partitions_cycle (q :: qb) (ck, chk) (c2, rest) hfrest
+  simp only [List.foldlM, bind_ok] at hfrest
+  obtain ⟨⟨cq, chq⟩, hfq, hfb⟩ := hfrest
   have hcyb : Cycle qb cq c2 := partitions_cycle qb (cq, chq) (c2, rest) hfb
+  have hpq : p ∈ q.map (·.1) := List.mem_map_of_mem (f := (·.1)) hp
   -- the pre-passes
   have hpreL := prePasses_lreach h0.cap hpre
   have hr1 : Reach c c1 := hpreL.toReach
   have hstat1 := sameStatic_reach hr1
   have hall1 := affAll_reach h0 hr1
-  have hagg1 := aggOk_reach h0 hagg hr1
-  have hcur1 := curOk_reach hcur hr1
   have hclean1 : Clean c c1 := fun y b0 b hb0 hb => by
     obtain ⟨b', hb', e⟩ := preOk_servers hpreL y b hb
     rw [hb0] at hb'; cases hb'; exact e
@@ -106,40 +113,77 @@ theorem C02_cycle_partial (c c' : Cell) (q : List (Nat × Bool)) (qb : List (Lis
     rw [preOk_unplaced h0.cap hpreL hh.app hh.unplaced hh.noGroup]; exact hh.app
   obtain ⟨S, s0, anc0, hs0, hup0, hanc0, hfit0⟩ := hh.fits
   obtain ⟨s1, hs1, ests⟩ := srv?_stat_to hstat1 hs0
-  have hup1 : s1.state = .up := by
-    have : s1.state = s0.state := congrArg SrvStat.state ests
-    rw [this]; exact hup0
   have hname : S ∈ c1.tree.names :=
     leaves_sub_names _ _ ((hall1.tree.leaves S).mpr ⟨s1, srv?_mem hs1, srv?_id hs1⟩)
   obtain ⟨anc1, hanc1⟩ := path_exists _ S hname
   have hfit1 := fits_mono (y := p) h0 hr1 hclean1 hh.app hsame1 hs0 hs1 hanc0 hanc1 hfit0
-  have hh1 : ProbeHyp c1 p ap :=
-    ⟨hsame1, hh.unplaced, hh.notBl, hh.noRenew, hh.noGroup, hh.fresh, S, s1, anc1, hs1, hup1, hanc1, hfit1⟩
+  -- the partitions scheduled before the probe's: quiescent, hence at most shrinking
+  have hrk : Reach c1 ck := hcya.toReach
+  have hstatk := sameStatic_reach hrk
+  have hcleank : Clean c1 ck := by
+    apply clean_of_not_moved
+    intro y hm
+    by_cases hy : ∃ q1 ∈ qa, y ∈ q1.map (·.1)
+    · apply hquiet c1 hpre y (Or.inl hy)
+      obtain ⟨b0, b, t, hb0, hb, hbt, hne⟩ := hm
+      obtain ⟨b2, hb2, _⟩ := app?_stat_to (sameStatic_reach hcyrest.toReach) hb
+      obtain ⟨q1, hq1, hyq1⟩ := hy
+      have hnot : ∀ q' ∈ q :: qb, y ∉ q'.map (·.1) := by
+        intro q' hq' hyq'
+        rcases List.mem_cons.mp hq' with rfl | hq'
+        · exact hdisj q1 (List.mem_append_left _ hq1) y hyq' hyq1
+        · exact hdisj2 q1 hq1 q' hq' y hyq1 hyq'
+      obtain ⟨bk, hbk, e, _, _⟩ := cycle_untouched hcyrest hnot b2 hb2
+      rw [hb] at hbk; cases hbk
+      exact ⟨b0, b2, t, hb0, hb2, by rw [e]; exact hbt, hne⟩
+    · obtain ⟨b0, b, t, hb0, hb, hbt, hne⟩ := hm
+      obtain ⟨b1, hb1, e, _, _⟩ := cycle_untouched hcya (fun q' hq' hyq' => hy ⟨q', hq', hyq'⟩) b hb
+      rw [hb0] at hb1; cases hb1
+      exact hne (by rw [← e]; exact hbt)
+  have hallk := affAll_reach hall1 hrk
+  have haggk := aggOk_reach h0 hagg (hr1.trans hrk)
+  have hcurk := curOk_reach hcur (hr1.trans hrk)
+  have hsamek : ck.app? p = some ap :=
+    cycle_untouched_eq hcya (fun q' hq' => hdisj q' (List.mem_append_left _ hq') p hpq) hsame1 hh.fresh.1
+  obtain ⟨sk, hsk, estsk⟩ := srv?_stat_to hstatk hs1
+  have hupk : sk.state = .up := by
+    have e1 : sk.state = s1.state := congrArg SrvStat.state estsk
+    have e2 : s1.state = s0.state := congrArg SrvStat.state ests
+    rw [e1, e2]; exact hup0
+  have hnamek : S ∈ ck.tree.names :=
+    leaves_sub_names _ _ ((hallk.tree.leaves S).mpr ⟨sk, srv?_mem hsk, srv?_id hsk⟩)
+  obtain ⟨anck, hanck⟩ := path_exists _ S hnamek
+  have hfitk := fits_mono (y := p) hall1 hrk hcleank hsame1 hsamek hs1 hsk hanc1 hanck hfit1
+  have hhk : ProbeHyp ck p ap :=
+    ⟨hsamek, hh.unplaced, hh.notBl, hh.noRenew, hh.noGroup, hh.fresh, S, sk, anck, hsk, hupk, hanck, hfitk⟩
   -- the probe's partition
-  have hpq : p ∈ q.map (·.1) := List.mem_map_of_mem (f := (·.1)) hp
   have hstable : ∀ y ∈ q.map (·.1), ∀ b2, c2.app? y = some b2 → ∃ bq, cq.app? y = some bq ∧ b2.server = bq.server := by
     intro y hy b2 hb2
-    obtain ⟨bq, hbq, e1, _, _⟩ := cycle_untouched hcyb (fun q' hq' => hdisj q' hq' y hy) b2 hb2
+    obtain ⟨bq, hbq, e1, _, _⟩ :=
+      cycle_untouched hcyb (fun q' hq' => hdisj q' (List.mem_append_right _ hq') y hy) b2 hb2
     exact ⟨bq, hbq, e1⟩
-  obtain ⟨a', sid', ha', hsv'⟩ := findPlacements_probe hall1 hagg1 hcur1 hh1 hnd hp
+  have hstat1k := sameStatic_reach (hr1.trans hrk)
+  obtain ⟨a', sid', ha', hsv'⟩ := findPlacements_probe hallk haggk hcurk hhk hnd hp
     (by
       intro y hy ay hay
-      obtain ⟨b0, hb0, est⟩ := app?_stat_of hstat1 hay
+      obtain ⟨b0, hb0, est⟩ := app?_stat_of hstat1k hay
       have ea : ay.alloc = b0.alloc := congrArg AppStat.alloc est
       have := hlbl y hy b0 hb0
       unfold Cell.allocInfo at this ⊢
-      rw [hstat1.allocs, ea]; exact this)
+      rw [hstat1k.allocs, ea]; exact this)
     hfq
     (by
       intro y hy hm
-      apply hquiet c1 hpre y hy
+      apply hquiet c1 hpre y (Or.inr hy)
       obtain ⟨b0, b, t, hb0, hb, hbt, hne⟩ := hm
       obtain ⟨l1, l2, el, hy1, _⟩ := hy
       have hyq : y ∈ q.map (·.1) := by rw [el]; exact List.mem_append_left _ hy1
       obtain ⟨b2, hb2, _⟩ := app?_stat_to (sameStatic_reach hcyb.toReach) hb
       obtain ⟨bq, hbq, e⟩ := hstable y hyq b2 hb2
       rw [hb] at hbq; cases hbq
-      exact ⟨b0, b2, t, hb0, hb2, by rw [e]; exact hbt, hne⟩)
+      obtain ⟨b1, hb1, e1, _, _⟩ :=
+        cycle_untouched hcya (fun q' hq' => hdisj q' (List.mem_append_left _ hq') y hyq) b0 hb0
+      exact ⟨b1, b2, t, hb1, hb2, by rw [e]; exact hbt, by rw [← e1]; exact hne⟩)
   obtain ⟨a2, ha2, _⟩ := app?_stat_to (sameStatic_reach hcyb.toReach) ha'
   obtain ⟨bq, hbq, e⟩ := hstable p hpq a2 ha2
   rw [ha'] at hbq; cases hbq
@@ -165,5 +209,19 @@ example : guardsB (Cell.init 100 3) c02Ops = true ∧ limGuardsB (Cell.init 100 
 
 example : (runOps (Cell.init 100 3) c02Ops).toOption.map (fun c => c.apps.map (fun a => (a.id, a.server))) =
     some [(1, some 1), (2, some 2), (3, some 1)] := by decide +kernel
+
+/-! Two partitions: the probe's queue is scheduled second; the first partition's instance stays where
+    it is (quiescent), the probe is placed in its own partition. -/
+def c02Ops2 : List Op :=
+  [.addBucket 101 100 2, .addServer 1 101 ⟨10, 10, 10⟩ 0 0 1000, .addServer 2 101 ⟨10, 10, 10⟩ 1 0 1000,
+   .setAlloc 1 ⟨0, 0, 0⟩, .setAlloc 2 ⟨1, 0, 0⟩,
+   .addApp { c02App 1 9 with alloc := 2 }, .tick 5, .schedule [[(1, false)], []] [],
+   .addApp (c02App 2 9), .schedule [[(1, false)], [(2, false)]] []]
+
+example : guardsB (Cell.init 100 3) c02Ops2 = true ∧ limGuardsB (Cell.init 100 3) c02Ops2 = true := by
+  decide +kernel
+
+example : (runOps (Cell.init 100 3) c02Ops2).toOption.map (fun c => c.apps.map (fun a => (a.id, a.server))) =
+    some [(1, some 2), (2, some 1)] := by decide +kernel
 
 end TmVerif.Sched
